@@ -9,6 +9,8 @@
  */
 #define _GNU_SOURCE
 #include <stdio.h>
+#include <sys/mman.h>
+#include <locale.h>
 #include <stdlib.h>
 #include <string.h>
 #include <strings.h>
@@ -97,6 +99,30 @@ static unsigned char *unhex (const char *tok, size_t *len)
 }
 
 /* s ++ after in one exact-size heap block */
+/* VERIF_ROMEM=1: input strings live in READ-ONLY pages, right in front of an inaccessible page: a write into the caller's string,
+ * or a read of even one byte past its last byte, is a SIGSEGV on the op that did it */
+static int g_romem = 0;
+static struct { char *p; char *base; size_t total; } g_maps[8];
+static char *ro_make (const unsigned char *src, size_t n)
+{
+    long pg = sysconf (_SC_PAGESIZE);
+    size_t dpages = (n + (size_t) pg - 1) / (size_t) pg; if (dpages == 0) dpages = 1;
+    size_t total = (dpages + 1) * (size_t) pg;
+    char *base = mmap (NULL, total, PROT_READ | PROT_WRITE, MAP_PRIVATE | MAP_ANONYMOUS, -1, 0);
+    if (base == MAP_FAILED) { perror ("mmap"); exit (2); }
+    char *p = base + dpages * (size_t) pg - n;
+    memcpy (p, src, n);
+    mprotect (base, dpages * (size_t) pg, PROT_READ);
+    mprotect (base + dpages * (size_t) pg, (size_t) pg, PROT_NONE);
+    for (int i = 0; i < 8; i++) if (g_maps[i].p == NULL) { g_maps[i].p = p; g_maps[i].base = base; g_maps[i].total = total; break; }
+    return p;
+}
+static void jfree (char *p)
+{
+    for (int i = 0; i < 8; i++) if (g_maps[i].p == p && p != NULL) { munmap (g_maps[i].base, g_maps[i].total); g_maps[i].p = NULL; return; }
+    free (p);
+}
+
 static char *joined (const char *ts, const char *ta, size_t *ls)
 {
     size_t la;
@@ -105,6 +131,7 @@ static char *joined (const char *ts, const char *ta, size_t *ls)
     memcpy (p, s, *ls);
     memcpy (p + *ls, a, la);
     free (s); free (a);
+    if (g_romem) { char *q = ro_make ((unsigned char *) p, *ls + la); jfree (p); return q; }
     return p;
 }
 
@@ -237,6 +264,7 @@ static void run_history (FILE *out, char *script)
             convlog_len += snprintf (convlog + convlog_len, sizeof convlog - convlog_len, " |");
             size_t n; unsigned char *raw = unhex (op + 1, &n);
             char *em = malloc (n + 1); memcpy (em, raw, n); em[n] = 0; free (raw);
+            if (g_romem) { char *q = ro_make ((unsigned char *) em, n + 1); free (em); em = q; }
             expect_domain_of (em);
             int ret = eav_is_email (eav, em, n);
             g_expect_dom = NULL;
@@ -244,7 +272,7 @@ static void run_history (FILE *out, char *script)
             putmsg (out, eav_errstr (eav));
             fputc (' ', out);
             put_result (out, eav->result);
-            free (em);
+            jfree (em);
         } break;
         default: fputc ('?', out);
         }
@@ -263,6 +291,10 @@ int main (int argc, char **argv)
     if (argc < 4) { fprintf (stderr, "usage: drive ops results leanops\n"); return 2; }
     FILE *in = fopen (argv[1], "r"), *out = fopen (argv[2], "w"), *lean = fopen (argv[3], "w");
     if (!in || !out || !lean) { perror ("open"); return 2; }
+    /* VERIF_LOCALE=<name>: the process runs in that locale, as an application that called setlocale would */
+    if (getenv ("VERIF_LOCALE") != NULL && setlocale (LC_ALL, getenv ("VERIF_LOCALE")) == NULL
+        && setlocale (LC_CTYPE, getenv ("VERIF_LOCALE")) == NULL) { fprintf (stderr, "setlocale failed\n"); return 3; }
+    g_romem = getenv ("VERIF_ROMEM") != NULL;
     init_msgs ();
     /* build header for the model */
     int rfc20 = 0, rfc5322 = 0, us = 0, extra = 0;
@@ -301,37 +333,37 @@ int main (int argc, char **argv)
             char *p = joined (tok[2], tok[3], &ls);
             int rc = mode == 822 ? is_822_local (p, p + ls) : mode == 5321 ? is_5321_local (p, p + ls)
                    : mode == 5322 ? is_5322_local (p, p + ls) : is_6531_local (p, p + ls);
-            fprintf (out, "%d", rc); free (p);
+            fprintf (out, "%d", rc); jfree (p);
         } else if (!strcmp (tok[0], "D") && nt == 3) {
             char *p = joined (tok[1], tok[2], &ls);
-            fprintf (out, "%d", is_ascii_domain (p, p + ls)); free (p);
+            fprintf (out, "%d", is_ascii_domain (p, p + ls)); jfree (p);
         } else if (!strcmp (tok[0], "4") && nt == 3) {
             char *p = joined (tok[1], tok[2], &ls);
-            fprintf (out, "%d", is_ipv4 (p, p + ls)); free (p);
+            fprintf (out, "%d", is_ipv4 (p, p + ls)); jfree (p);
         } else if (!strcmp (tok[0], "6") && nt == 3) {
             char *p = joined (tok[1], tok[2], &ls);
-            fprintf (out, "%d", is_ipv6 (p, p + ls)); free (p);
+            fprintf (out, "%d", is_ipv6 (p, p + ls)); jfree (p);
         } else if (!strcmp (tok[0], "A") && nt == 3) {
             char *p = joined (tok[1], tok[2], &ls);
-            fprintf (out, "%d", is_ipaddr (p, p + ls)); free (p);
+            fprintf (out, "%d", is_ipaddr (p, p + ls)); jfree (p);
         } else if (!strcmp (tok[0], "S") && nt == 2) {
             char *p = joined (tok[1], "00", &ls);
-            fprintf (out, "%d", is_special_domain (p, p + ls)); free (p);
+            fprintf (out, "%d", is_special_domain (p, p + ls)); jfree (p);
         } else if (!strcmp (tok[0], "T") && nt == 2) {
             char *p = joined (tok[1], "00", &ls);
-            fprintf (out, "%d", is_tld (p, p + ls)); free (p);
+            fprintf (out, "%d", is_tld (p, p + ls)); jfree (p);
         } else if (!strcmp (tok[0], "U") && nt == 3) {
             char *p = joined (tok[2], "00", &ls);
             int r = 0;
             g_expect_dom = p;
             int rc = utf8dom (&r, p, p + ls, tok[1][0] == '1');
-            fprintf (out, "%d %d", rc, rc == -EEAV_IDN_ERROR ? r : 0); free (p);
+            fprintf (out, "%d %d", rc, rc == -EEAV_IDN_ERROR ? r : 0); jfree (p);
         } else if (!strcmp (tok[0], "E") && nt == 4) {
             char *p = joined (tok[3], "00", &ls);
             expect_domain_of (p);
             eav_result_t *r = mode_fn (atoi (tok[1])) (p, ls, tok[2][0] == '1');
             put_result (out, r);
-            eav_result_free (r); free (p);
+            eav_result_free (r); jfree (p);
         } else if (!strcmp (tok[0], "P") && nt == 5) {
             /* full API on an uninitialised heap eav_t: init, settings, setup, is_email, errstr, free */
             char *p = joined (tok[4], "00", &ls);
@@ -350,7 +382,7 @@ int main (int argc, char **argv)
                 fputc (' ', out);
                 put_result (out, eav->result);
             }
-            eav_free (eav); free (eav); free (p);
+            eav_free (eav); free (eav); jfree (p);
         } else if (!strcmp (tok[0], "Y") && nt == 3) {
             /* policy: a callback reporting rc = tok[2] under mask tok[1]; abort() is observed in a child */
             int rcv = atoi (tok[2]);
@@ -424,7 +456,7 @@ int main (int argc, char **argv)
                 }
             }
             fprintf (out, "%d %d", rc, rc == -EEAV_IDN_ERROR ? idn : 0);
-            free (p);
+            jfree (p);
         } else if (!strcmp (tok[0], "H") && nt == 2) {
             run_history (out, tok[1]);
         } else {
